@@ -7,9 +7,14 @@
     [round_scaled neg m e10 0], which calls the standard library's
     [binary_round_aux] (round to nearest even at precision 53, emax 1024).
 
-    This file states, in integer arithmetic only (no reals, no Flocq, no axiom),
-    that what reaches [binary_round_aux] is an exact description of the
-    lexeme's rational value.  Vocabulary (Proofs/FloatExact.v):
+    The first six theorems state, in integer arithmetic only (no reals, no
+    Flocq, no axiom: "Closed under the global context"), that what reaches
+    [binary_round_aux] is an exact description of the lexeme's rational value.
+    The last two ([parse_float_correctly_rounded], [round_scaled_correctly_rounded])
+    conclude with Flocq that the result is the round-to-nearest-even of that
+    real number; they, and only they, depend on the standard library's
+    real-number axioms (listed by their [Print Assumptions]).
+    Vocabulary (Proofs/FloatExact.v):
     - [digits_int p 0], [frac_count p]: the digits of the text [p] read as one
       integer, and the number of digits after its point – the text denotes
       [digits_int p 0 / 10^(frac_count p)];
@@ -21,11 +26,14 @@
       [sign] digits-with-at-most-one-point [(e|E) [sign] digits];
       [dl_int d] its digits as an integer, [dl_exp10 d] its decimal exponent:
       the lexeme denotes (-1)^neg * dl_int d * 10^(dl_exp10 d).
-    The step from an exact triple to "Flocq's round-to-nearest-even of that real
-    number" needs the reals: Props/C04_value_flocq.v (if present) /
-    Proofs/FloatRound.v. *)
+    Proofs/FloatRound.v (Flocq):
+    - [dec_real neg m e10]: the real number (-1)^neg * m * 10^e10;
+    - [correctly_rounded neg x z]: [z] is valid and, when
+      |round radix2 (FLT_exp (-1074) 53) ZnearestE x| < 2^1024, [z] is finite with
+      real value that rounding of [x] and sign [neg]; otherwise [z] is the
+      infinity of sign [neg] (which [parse_float] reports as range error). *)
 From Coq Require Import ZArith List Floats.SpecFloat.
-From HP Require Import Base.Bytes Base.Num Base.GoFloat Proofs.FloatExact.
+From HP Require Import Base.Bytes Base.Num Base.GoFloat Proofs.FloatExact Proofs.FloatRound.
 Import ListNotations.
 Open Scope Z_scope.
 
@@ -111,3 +119,34 @@ Theorem parse_float_zero :
     dl_wf d -> dl_int d = 0%N -> parse_float (dl_bytes d) = Some (S754_zero (sign_neg (dl_sign d))).
 Proof. exact parse_float_zero_mantissa. Qed.
 Print Assumptions parse_float_zero.
+
+(** * with Flocq and the real numbers (the only theorems of this file that depend on axioms:
+      ClassicalDedekindReals.sig_forall_dec, ClassicalDedekindReals.sig_not_dec,
+      FunctionalExtensionality.functional_extensionality_dep, Classical_Prop.classic –
+      all four from the standard library, all four already in the assumptions of
+      Flocq's BinarySingleNaN.binary_round_aux_correct, on which these rest) *)
+
+(** "the correctly rounded value of its number": for every plain decimal
+    lexeme outside the two shortcuts, [parse_float] returns the IEEE 754
+    round-to-nearest-even binary64 value of the real number the lexeme
+    denotes, or the range error when that rounding is not below 2^1024. *)
+Theorem parse_float_correctly_rounded :
+  forall (d : dec_lexeme) (m : positive),
+    dl_wf d -> dl_int d = Npos m ->
+    let neg := sign_neg (dl_sign d) in
+    let e10 := dl_exp10 d in
+    exists nd : Z,
+      10 ^ (nd - 1) <= Zpos m < 10 ^ nd /\
+      (e10 <= 400 -> -400 <= e10 + nd ->
+         exists z : f64,
+           parse_float (dl_bytes d) = keep_finite z /\
+           correctly_rounded neg (dec_real neg m e10) z).
+Proof. exact parse_float_correctly_rounded_lemma. Qed.
+Print Assumptions parse_float_correctly_rounded.
+
+(** the rounding routine alone: every mantissa, every decimal exponent *)
+Theorem round_scaled_correctly_rounded :
+  forall (neg : bool) (m : positive) (e10 : Z),
+    correctly_rounded neg (dec_real neg m e10) (round_scaled neg m e10 0).
+Proof. exact FloatRound.round_scaled_correctly_rounded. Qed.
+Print Assumptions round_scaled_correctly_rounded.
